@@ -111,7 +111,7 @@ func buildC11(tier string) sim.Scenario {
 			init0 = append(init0, &auth.User{Name: n, Password: u.pw, Admin: u.admin, PullAccess: u.pull, PushAccess: u.push})
 		}
 		sw = newSvcWorld(w, true, tp.Bool(), init0, nil)
-		paths := []string{"/live/a", "/live/b", "/cam/1", "/other/x", "/live/ab", "/cam/10"}
+		paths := []string{"/live/a", "/live/b", "/cam/1", "/other/x", "/live/ab", "/cam/10", "/live/a/b"}
 		streams := map[string]*media.Stream{}
 		for _, p := range paths {
 			s := media.NewStream(p, sdpH264AAC)
@@ -357,7 +357,7 @@ func buildC11(tier string) sim.Scenario {
 			user := names[tp.Choose(len(names))]
 			u := users[user]
 			path := paths[tp.Choose(len(paths))]
-			kind := tp.Choose(12)
+			kind := tp.Choose(13)
 			// users whose password or existence changed need a fresh login; the old token keeps naming the user
 			tok := tokens[user][0]
 			switch kind {
@@ -540,8 +540,12 @@ func buildC11(tier string) sim.Scenario {
 				}
 				verdict("ws-flv", user, "pull", path, got, fmt.Sprintf("handshake status %d", st))
 				w.Sleep(time.Second)
-			case 10: // WSP: control channel, data channel, DESCRIBE/SETUP/PLAY wrapped
-				cl, err := sw.wspConnect(fmt.Sprintf("wsp%d", q), path+"?token="+tok)
+			case 10, 12: // WSP: control channel, data channel, DESCRIBE/SETUP/PLAY wrapped (12: the URL carries a .ts suffix, as a segment URL would)
+				suffix, ename := "", "wsp-play"
+				if kind == 12 {
+					suffix, ename = ".ts", "wsp-play(.ts suffix)"
+				}
+				cl, err := sw.wspConnect(fmt.Sprintf("wsp%d", q), path+suffix+"?token="+tok)
 				got := false
 				detail := ""
 				if err != nil {
@@ -565,7 +569,7 @@ func buildC11(tier string) sim.Scenario {
 					}
 					cl.close()
 				}
-				verdict("wsp-play", user, "pull", path, got, detail)
+				verdict(ename, user, "pull", path, got, detail)
 				w.Sleep(time.Second)
 			case 11: // WSP data channel joined to somebody else's control channel (channel ids are disclosed by INIT and sequential)
 				// victim: somebody who may pull `path`; attacker: `user`, if the rights as last saved do not cover `path` but cover another stream
